@@ -321,4 +321,136 @@ theorem sendResponse_replicate (maxMsg n : Nat) (b : β) (hn : 1 ≤ n)
     simp [List.replicate_succ]
   simp only [mkStep, hm]
 
+/-! ## the whole of `send_response` (presence message + block loop with writes) -/
+
+variable {π : Type}
+
+theorem mkStep_batch (maxMsg : Nat) (batch : List β) : (mkStep S maxMsg batch).batch = batch := by
+  unfold mkStep; split <;> rfl
+
+/-- When the codec accepts everything the size guard lets through (`maxMsg ≤ codecMax`), no write
+fails: the loop with writes sends exactly the batches the plan (`sendLoop`) marks as sent, every
+written frame is within `maxMsg`, and it returns `Ok` when the plan ends by itself. -/
+theorem respondLoop_spec (maxMsg codecMax : Nat) (hcodec : maxMsg ≤ codecMax) :
+    ∀ (fuel : Nat) (blocks : List β),
+    blockBatches (respondLoop π S m cap maxMsg codecMax fuel blocks).1 =
+      sentBatches (sendLoop S m cap maxMsg fuel blocks).1 ∧
+    (respondLoop π S m cap maxMsg codecMax fuel blocks).2 =
+      (if (sendLoop S m cap maxMsg fuel blocks).2 then SendResult.ok else SendResult.outOfFuel) ∧
+    (∀ f ∈ (respondLoop π S m cap maxMsg codecMax fuel blocks).1,
+      f.len ≤ maxMsg ∧ ∃ batch, f = Frame.blocks batch f.len ∧ blocksMessageLen S batch = some f.len) := by
+  intro fuel
+  induction fuel with
+  | zero => intro blocks; simp [respondLoop, sendLoop, blockBatches, sentBatches]
+  | succ f ih =>
+    intro blocks
+    unfold respondLoop sendLoop
+    split
+    · simp [blockBatches, sentBatches]
+    · rename_i batch rest hs
+      obtain ⟨i1, i2, i3⟩ := ih rest
+      simp only
+      split
+      · rename_i hn
+        have : (mkStep S maxMsg batch).sent = false := by unfold mkStep; rw [hn]
+        refine ⟨?_, i2, i3⟩
+        rw [i1]; simp [sentBatches, this]
+      · rename_i len hl
+        by_cases hle : len ≤ maxMsg
+        · have hw : sendFramed codecMax len = true := by simp [sendFramed]; omega
+          have hsent : (mkStep S maxMsg batch).sent = true := by
+            unfold mkStep; rw [hl]; simpa using hle
+          simp only [hle, hw, if_true]
+          refine ⟨?_, i2, ?_⟩
+          · simp only [blockBatches, i1, sentBatches, List.filter_cons, hsent, if_true, List.map_cons,
+              mkStep_batch]
+          · intro fr hfr
+            simp only [List.mem_cons] at hfr
+            rcases hfr with rfl | hfr
+            · exact ⟨hle, batch, rfl, hl⟩
+            · exact i3 fr hfr
+        · have hsent : (mkStep S maxMsg batch).sent = false := by
+            unfold mkStep; rw [hl]; simpa using hle
+          simp only [hle, if_false]
+          refine ⟨?_, i2, i3⟩
+          rw [i1]; simp [sentBatches, hsent]
+
+/-- Whatever the limits, the loop writes block frames only. -/
+theorem respondLoop_blocks_only (maxMsg codecMax : Nat) : ∀ (fuel : Nat) (blocks : List β),
+    ∀ f ∈ (respondLoop π S m cap maxMsg codecMax fuel blocks).1, ∃ batch len, f = Frame.blocks batch len := by
+  intro fuel
+  induction fuel with
+  | zero => intro blocks f hf; simp [respondLoop] at hf
+  | succ k ih =>
+    intro blocks f hf
+    unfold respondLoop at hf
+    split at hf
+    · simp at hf
+    · rename_i batch rest _
+      split at hf
+      · exact ih rest f hf
+      · rename_i len _
+        split at hf
+        · split at hf
+          · simp only [List.mem_cons] at hf
+            rcases hf with rfl | hf
+            · exact ⟨batch, len, rfl⟩
+            · exact ih rest f hf
+          · simp at hf
+        · exact ih rest f hf
+
+theorem blocksOf_map_block (l : List β) : blocksOf (l.map (Entry.block (π := π))) = l := by
+  induction l with
+  | nil => rfl
+  | cons b rest ih => simp only [List.map_cons, blocksOf, ih]
+
+theorem presencesOf_map_block (l : List β) : presencesOf (l.map (Entry.block (π := π))) = [] := by
+  induction l with
+  | nil => rfl
+  | cons b rest ih => simp only [List.map_cons, presencesOf, ih]
+
+/-- A block-only response is the block loop. -/
+theorem respond_blocks_only (P : PSized π) (maxMsg codecMax : Nat) (l : List β) :
+    respond P S m cap maxMsg codecMax (l.map Entry.block) =
+      respondLoop π S m cap maxMsg codecMax (l.length + 1) l := by
+  unfold respond
+  rw [presencesOf_map_block, blocksOf_map_block]
+  rfl
+
+/-- Shape of `respond`: an optional presence frame (written iff there is a presence and the message
+is within both limits), then the block loop — or nothing at all after a rejected presence write. -/
+theorem respond_cases (P : PSized π) (maxMsg codecMax : Nat) (entries : List (Entry π β)) :
+    (presencesOf entries = [] ∧
+      respond P S m cap maxMsg codecMax entries =
+        respondLoop π S m cap maxMsg codecMax ((blocksOf entries).length + 1) (blocksOf entries)) ∨
+    (∃ len, presencesMessageLen P (presencesOf entries) = some len ∧ maxMsg < len ∧
+      respond P S m cap maxMsg codecMax entries =
+        respondLoop π S m cap maxMsg codecMax ((blocksOf entries).length + 1) (blocksOf entries)) ∨
+    (∃ len, presencesMessageLen P (presencesOf entries) = some len ∧ len ≤ maxMsg ∧ len ≤ codecMax ∧
+      respond P S m cap maxMsg codecMax entries =
+        (Frame.presences (presencesOf entries) len ::
+          (respondLoop π S m cap maxMsg codecMax ((blocksOf entries).length + 1) (blocksOf entries)).1,
+         (respondLoop π S m cap maxMsg codecMax ((blocksOf entries).length + 1) (blocksOf entries)).2)) ∨
+    (∃ len, presencesMessageLen P (presencesOf entries) = some len ∧ len ≤ maxMsg ∧ codecMax < len ∧
+      respond P S m cap maxMsg codecMax entries = ([], SendResult.writeError)) := by
+  unfold respond
+  split
+  · rename_i hn
+    left
+    refine ⟨?_, rfl⟩
+    unfold presencesMessageLen at hn
+    split at hn
+    · rename_i he; simpa using he
+    · simp at hn
+  · rename_i len hl
+    right
+    by_cases hle : len ≤ maxMsg
+    · by_cases hc : len ≤ codecMax
+      · right; left
+        exact ⟨len, hl, hle, hc, by simp [hle, sendFramed, hc]⟩
+      · right; right
+        exact ⟨len, hl, hle, by omega, by simp [hle, sendFramed, hc]⟩
+    · left
+      exact ⟨len, hl, by omega, by simp [hle]⟩
+
 end Litep2pVerif.Bitswap
